@@ -92,7 +92,27 @@ fn run_blitseq(toks: &[&str], em: &mut Emitter) {
     });
 }
 
+/// `blitdseq W BUFLEN BPP HEX l.t.r.b.bw.bh ...`: several COMPRESSED paints carrying the very same data (possibly with
+/// different shapes), one after the other, into the same window buffer on the same thread
+fn run_blitdseq(toks: &[&str], em: &mut Emitter) {
+    let line = toks.join(" ");
+    let width: usize = toks[1].parse().unwrap(); let buflen: usize = toks[2].parse().unwrap(); let bpp: u16 = toks[3].parse().unwrap();
+    let data = unhex(toks[4]);
+    let paints: Vec<Vec<usize>> = toks[5..].iter().map(|t| t.split('.').map(|x| x.parse().unwrap()).collect()).collect();
+    em.case(&line, move || {
+        let mut buffer: Vec<u32> = (0..buflen).map(|j| 0xB000_0000 | j as u32).collect();
+        let mut res = vec![];
+        for g in paints.iter() {
+            let ev = BitmapEvent { dest_left: g[0] as u16, dest_top: g[1] as u16, dest_right: g[2] as u16, dest_bottom: g[3] as u16, width: g[4] as u16, height: g[5] as u16, bpp, is_compress: true, data: data.clone() };
+            res.push(if crate::gui::verif_fast_bitmap_transfer(&mut buffer, width, ev).is_ok() { "ok" } else { "E" });
+        }
+        let cells: Vec<String> = buffer.iter().enumerate().map(|(j, c)| if *c == (0xB000_0000 | j as u32) { ".".to_string() } else { format!("?{:08x}", c) }).collect();
+        Obs::new(format!("{} {}", res.join(","), cells.join(","))).nt(res.contains(&"ok"))
+    });
+}
+
 pub fn run_case(toks: &[&str], em: &mut Emitter) {
+    if toks[0] == "blitdseq" { return run_blitdseq(toks, em); }
     if toks[0] == "blitd" { return run_blitd(toks, em); }
     if toks[0] == "blitseq" { return run_blitseq(toks, em); }
     if toks[0] == "blitz" { return run_blitz(toks, em); }
@@ -178,6 +198,28 @@ pub fn generate(thorough: bool, seed: u64, part: (usize, usize), em: &mut Emitte
             let bpp = if r.chance(1, 5) { d.remove(0); 16 } else { 32 };
             let line = format!("blitd 4 16 0 0 {} {} {} {} {} {}", bw - 1, bh - 1, bw, bh, bpp, if d.is_empty() { "-".to_string() } else { hex(&d) });
             let toks: Vec<&str> = line.split(' ').collect(); run_case(&toks, em);
+        }
+        // several COMPRESSED paints in a row carrying byte-identical data with different shapes of the same pixel
+        // count (4x2, 2x4, 8x1, 1x8): each paint shows ITS shape's decoding
+        {
+            let shapes: [(usize, usize); 4] = [(4, 2), (2, 4), (8, 1), (1, 8)];
+            let mut datas: Vec<Vec<u8>> = vec![];
+            { let mut d = vec![0x88u8]; for k in 0..8u16 { d.extend_from_slice(&(0x1111u16.wrapping_mul(k + 1)).to_le_bytes()); } datas.push(d); }   // colour image of 8
+            datas.push(vec![0x64, 0x34, 0x12, 0x64, 0x78, 0x56]);                                                                           // two colour runs of 4
+            datas.push(vec![0xE4, 0x0f, 0x00, 0xf0, 0xff]);                                                                               // dithered run of 4 pairs
+            for d in &datas {
+                for _ in 0..(if thorough { 200 } else { 12 }) {
+                    let k = r.range(2, 4) as usize;
+                    let items: Vec<String> = (0..k).map(|_| { let (bw, bh) = *r.pick(&shapes); format!("0.0.{}.{}.{}.{}", bw - 1, bh - 1, bw, bh) }).collect();
+                    let line = format!("blitdseq 8 64 16 {} {}", hex(d), items.join(" "));
+                    let toks: Vec<&str> = line.split(' ').collect(); run_case(&toks, em);
+                }
+                for (a, b) in &[(0usize, 1usize), (1, 0), (2, 3), (0, 0), (3, 1)] {
+                    let f = |i: usize| { let (bw, bh) = shapes[i]; format!("0.0.{}.{}.{}.{}", bw - 1, bh - 1, bw, bh) };
+                    let line = format!("blitdseq 8 64 16 {} {} {}", hex(d), f(*a), f(*b));
+                    let toks: Vec<&str> = line.split(' ').collect(); run_case(&toks, em);
+                }
+            }
         }
         // several paints in a row into the same window: each is judged on its own image and rectangle,
         // whatever was painted before (same rectangle with a smaller / larger image, other rectangles)
